@@ -134,6 +134,12 @@ def Store.has (s : Store) (k : Bytes) : Bool := (s.get k).isSome
 def Store.del (s : Store) (k : Bytes) : Store := s.filter (fun e => decide (e.1 ≠ k))
 def Store.set (s : Store) (k : Bytes) (v : Val) : Store := (k, v) :: s.del k
 
+/-- The store is the map `get`; its entries are the keys with their live values, each key once
+(`set` never leaves an older entry behind, so on reachable stores this is the list itself). -/
+def Store.entries : Store → List (Bytes × Val)
+  | [] => []
+  | (k, v) :: r => (k, v) :: (Store.entries r).filter (fun e => decide (e.1 ≠ k))
+
 /-- byte-lexicographic `<` (the iteration order of the IAVL / cachekv store) -/
 def bytesLt : Bytes → Bytes → Bool
   | [], [] => false
@@ -145,10 +151,16 @@ def bytesLe (a b : Bytes) : Bool := !bytesLt b a
 
 abbrev Entry := Bytes × Val
 
+def insertEntry (e : Entry) : List Entry → List Entry
+  | [] => [e]
+  | x :: r => if bytesLe e.1 x.1 then e :: x :: r else x :: insertEntry e r
+
+/-- sort by key (byte-lexicographic) -/
+def sortEntries (l : List Entry) : List Entry := l.foldr insertEntry []
+
 /-- `prefix.NewStore(store, pre)` viewed as its sorted entry list, keys stripped of `pre`. -/
 def prefixStore (s : Store) (pre : Bytes) : List Entry :=
-  ((s.filter (fun e => pre.isPrefixOf e.1)).map (fun e => (e.1.drop pre.length, e.2))).mergeSort
-    (fun a b => bytesLe a.1 b.1)
+  sortEntries ((s.entries.filter (fun e => pre.isPrefixOf e.1)).map (fun e => (e.1.drop pre.length, e.2)))
 
 def inRange (start stop : Option Bytes) (k : Bytes) : Bool :=
   (match start with | none => true | some st => bytesLe st k) &&
@@ -405,7 +417,7 @@ def nextMarketIDLoop (s : Store) : Nat → UInt32 → UInt32
   | 0, m => m
   | fuel + 1, m => if s.has (keyKnownMarketID m) then nextMarketIDLoop s fuel (m + 1) else m
 
-def knownMarketCount (s : Store) : Nat := (prefixStore s prefixKnownMarket).length
+def knownMarketCount (s : Store) : Nat := (s.entries.filter (fun e => prefixKnownMarket.isPrefixOf e.1)).length
 
 /-- `nextMarketID` market.go:37.  The Go loop has no bound; `knownMarketCount + 1` iterations are
 enough (theorem `nextMarketID_unused`). -/
@@ -486,9 +498,40 @@ def cancelAllOrdersForMarket (s : Store) (m : UInt32) (signer : Bytes) : Store :
   (iterateOrderIndex s (prefixMarketToOrder m)).foldl
     (fun acc e => match cancelOrder acc e.1 signer with | some s' => s' | none => acc) s
 
-/-- `SettleOrders` fulfillment.go:229 + `closeSettlement` :267 for ONE ask and ONE bid, no fees:
-what `BuildSettlement` / `Order.Split` decide about full / partial filling, and the store updates
-(`setOrderInStore` of the part left, `deleteAndDeIndexOrder` of the filled orders). -/
+/-- the store updates of `closeSettlement` fulfillment.go:300-310 when one order is filled in part:
+`setOrderInStore` of the part left, `deleteAndDeIndexOrder` of the filled order -/
+def settlePartial (s : Store) (left filled : Order) : Option Store :=
+  match setOrderInStore s left with
+  | none => none
+  | some s1 => some (deleteAndDeIndexOrder s1 filled)
+
+/-- What `BuildSettlement` / `Order.Split` (x/exchange/fulfillment.go:38, orders.go:243) decide for
+ONE ask `a` and ONE bid `b` of the same market, no fees: `none` = the settlement is refused,
+`some none` = both orders are filled in full, `some (some (left, filled))` = `filled` is filled
+in full and `left` is what remains of the other order. -/
+def settleDecide (a b : Order) (expectPartial : Bool) : Option (Option (Order × Order)) :=
+  if a.assetDenom ≠ b.assetDenom ∨ a.priceDenom ≠ b.priceDenom then none
+  else
+    let filled := min a.assetAmt b.assetAmt
+    if a.assetAmt > filled then
+      -- the ask is filled in part
+      if ¬ a.allowPartial ∨ (a.priceAmt * filled) % a.assetAmt ≠ 0 then none
+      else
+        let pf := a.priceAmt * filled / a.assetAmt
+        if b.priceAmt < pf ∨ ¬ expectPartial then none
+        else some (some ({ a with assetAmt := a.assetAmt - filled, priceAmt := a.priceAmt - pf }, b))
+    else if b.assetAmt > filled then
+      if ¬ b.allowPartial ∨ (b.priceAmt * filled) % b.assetAmt ≠ 0 then none
+      else
+        let pf := b.priceAmt * filled / b.assetAmt
+        if pf < a.priceAmt ∨ ¬ expectPartial then none
+        else some (some ({ b with assetAmt := b.assetAmt - filled, priceAmt := b.priceAmt - pf }, a))
+    else
+      if b.priceAmt < a.priceAmt ∨ expectPartial then none else some none
+
+/-- `SettleOrders` fulfillment.go:229 + `closeSettlement` :267 for one ask and one bid: the
+guards, the decision, and the store updates (`setOrderInStore` of the part left,
+`deleteAndDeIndexOrder` of the filled orders). -/
 def settle (s : Store) (m : UInt32) (askId bidId : UInt64) (expectPartial : Bool) (signer : Bytes) :
     Option Store :=
   if m = 0 ∨ askId = 0 ∨ bidId = 0 ∨ askId = bidId then none
@@ -497,29 +540,10 @@ def settle (s : Store) (m : UInt32) (askId bidId : UInt64) (expectPartial : Bool
   else match getOrderFromStore s askId, getOrderFromStore s bidId with
     | some a, some b =>
       if a.isBid ∨ ¬ b.isBid ∨ a.market ≠ m ∨ b.market ≠ m then none
-      else if a.assetDenom ≠ b.assetDenom ∨ a.priceDenom ≠ b.priceDenom then none
-      else
-        let filled := min a.assetAmt b.assetAmt
-        if a.assetAmt > filled then
-          -- the ask is filled in part (Order.Split x/exchange/orders.go:243)
-          if ¬ a.allowPartial ∨ (a.priceAmt * filled) % a.assetAmt ≠ 0 then none
-          else
-            let pf := a.priceAmt * filled / a.assetAmt
-            if b.priceAmt < pf ∨ ¬ expectPartial then none
-            else match setOrderInStore s { a with assetAmt := a.assetAmt - filled, priceAmt := a.priceAmt - pf } with
-              | none => none
-              | some s1 => some (deleteAndDeIndexOrder s1 b)
-        else if b.assetAmt > filled then
-          if ¬ b.allowPartial ∨ (b.priceAmt * filled) % b.assetAmt ≠ 0 then none
-          else
-            let pf := b.priceAmt * filled / b.assetAmt
-            if pf < a.priceAmt ∨ ¬ expectPartial then none
-            else match setOrderInStore s { b with assetAmt := b.assetAmt - filled, priceAmt := b.priceAmt - pf } with
-              | none => none
-              | some s1 => some (deleteAndDeIndexOrder s1 a)
-        else
-          if b.priceAmt < a.priceAmt ∨ expectPartial then none
-          else some (deleteAndDeIndexOrder (deleteAndDeIndexOrder s a) b)
+      else match settleDecide a b expectPartial with
+        | none => none
+        | some none => some (deleteAndDeIndexOrder (deleteAndDeIndexOrder s a) b)
+        | some (some (left, filled)) => settlePartial s left filled
     | _, _ => none
 
 /-! ### Commitments (commitments.go) -/
